@@ -4,7 +4,7 @@
 # the patch applies to HEAD, the tree builds, the existing suite passes with it, and the
 # demonstration fails with the change and passes without it. Writes the outcome into meta.json.
 export GOFLAGS=-mod=mod GOPROXY=off GOSUMDB=off
-wt=/tmp/confirm-wt
+wt=/tmp/confirm-wt${LANE:-}
 git -C /repo worktree remove --force $wt 2>/dev/null
 git -C /repo worktree add -q --detach $wt HEAD || exit 2
 ids="$@"; [ -z "$ids" ] && ids=$(ls /verif/seeded)
@@ -21,7 +21,7 @@ for id in $ids; do
     # without the change
     if [ -n "$demo" ]; then
       if bash -c "$demo" > /tmp/confirm.$id.without.log 2>&1; then demo_without=pass; else demo_without=fail; fi
-      find . -name '*demo_test.go' -not -path './_out/*' -delete
+      git clean -fdq -e _out   # the demonstration file, whatever it is called
     fi
     git apply $d/patch.diff
     if go build ./... > /tmp/confirm.$id.build.log 2>&1; then builds=yes; fi
